@@ -93,12 +93,22 @@ def build(c, key_int=0):
     return layer, bank_np, stab, in_sig, out_sig
 
 
+CENTRE2 = {"sig": "pseudo3", "bank": "B_M3_normalize", "bias": "mean", "flags": [True, False], "pad": "SAME", "rhs": 2, "lhs": None, "ext": [3, 5]}
+
+
 def gen_cases(tier, plan, with_stride):
     out = []
     for d in (2, 3):
         for cell, dev in explore.cells(dims(d, with_stride), plan[d]):
             c = dict(cell, d=d, dev=dev)
-            c["grp"] = f"{d}/{c['bank']}"
-            c["cost"] = 5 if d == 3 else 1
             out.append(c)
+    # second centre: every cell within 2 deviations of a non-default corner (pseudo types, normalised bank, mean
+    # bias, mixed flags, SAME padding, dilation 2, non-square)
+    c2 = dict(CENTRE2, **({"stride": 2} if with_stride else {}))
+    for cell, dev in explore.cells(explore.recentre(dims(2, with_stride), c2), 2):
+        out.append(dict(cell, d=2, dev=dev + 10))
+    out = explore.dedupe(out, lambda c: repr(sorted((k, str(v)) for k, v in c.items() if k != "dev")))
+    for c in out:
+        c["grp"] = f"{c['d']}/{c['bank']}"
+        c["cost"] = 5 if c["d"] == 3 else 1
     return out
